@@ -1,6 +1,6 @@
 (* Proofs about Model/Relay.v, part 2: whole runs, c01_relay_identity, the doRead-level statements. *)
 From Coq Require Import List NArith Bool Lia.
-From MV Require Import Model.Relay Proofs.RelayInv.
+From MV Require Import Model.Relay Proofs.RelayInv Gen.RelaySrc.
 Import ListNotations.
 
 (* ------------------------------------------------------------------ whole runs *)
@@ -107,3 +107,12 @@ Proof.
   destruct (xrb ++ bytes) eqn:E; [congruence|].
   brk; cbn [fst snd c_trace c_closed] in *; try discriminate; rewrite <- ?app_assoc; cbn [app]; eexists; reflexivity.
 Qed.
+
+(* ------------------------------------------------------------------ tie to the source (Gen/RelaySrc.v) *)
+(* The translator recognised doRead's error block as: only a closed connection, a time-out without bytes and an error
+   other than io.EOF / time-out return before onRead (what Model/Relay.v `rd` does), and the proxy's reaction to a
+   close event of either connection, read from the two switch statements, is the model's `flushes`. *)
+Lemma relay_source_shape :
+  RelaySrc_translator_ok = true /\ doread_eof_delivers = true /\
+  forall ev, up_reaction ev = Some (flushes ev) /\ down_reaction ev = Some (flushes ev).
+Proof. split; [reflexivity|]. split; [reflexivity|]. intros ev; destruct ev; split; reflexivity. Qed.
